@@ -27,6 +27,10 @@ package server
 //@ func (*fsmHandler).recvMessageloop
 //@   claims at-call
 //@   at-call table.UpdatePathAttrs4ByteAs( requires handling == bgp.ERROR_HANDLING_NONE || handling == bgp.ERROR_HANDLING_ATTRIBUTE_DISCARD ==> called(ValidateUpdateMsg)
+// ... and "the strongest reaction any of its errors calls for" also when decoding already asked for
+// treat-as-withdraw: the faults only validation finds (missing / unrecognised well-known attribute, duplicate
+// MP_REACH, confederation segments from a non-member, ...) may call for a reset (known finding D34: they are lost)
+//@   at-call table.UpdatePathAttrs4ByteAs( requires handling < bgp.ERROR_HANDLING_SESSION_RESET ==> called(ValidateUpdateMsg)
 
 // =============================================================================================
 // C08 — session parameters are negotiated as the intersection of both OPEN messages
